@@ -233,8 +233,13 @@ where
         };
         self.start_tree.push(start_node);
 
-        let mut rng = rand::rng();
-        let goal_state = pd.goal.sample_goal(&mut rng).unwrap();
+        // Draw the goal-tree root from the planner's own generator when a seed was configured,
+        // so that seeded runs are reproducible; fall back to the thread generator otherwise.
+        let goal_state = match self.rng.as_mut() {
+            Some(rng) => pd.goal.sample_goal(&mut **rng),
+            None => pd.goal.sample_goal(&mut rand::rng()),
+        }
+        .unwrap();
         let goal_node = Node {
             state: goal_state,
             parent_index: None,
